@@ -251,6 +251,14 @@ static void run_case(const drvargs_t *a,long id){
   chain_describe(&cd,desc,sizeof desc);
   /* every 4th case some links are model-made (block sizes 64..8192 in any pair, floor 0, end-trimmed last packet, ...) */
   unsigned modelmask= (id%4==3)? pick_modelmask(&r,cd.nlinks):0;
+  if(id%16==10){ /* hand-built pages: some hold nothing but the tail of a packet begun on the previous page (page seeks must walk backwards) */
+    cd.nlinks=1; cd.goffset[0]=0; if(cd.cfg[0].nsamples<8000) cd.cfg[0].nsamples=8000+(long)rng_below(&r,8000); if(cd.cfg[0].channels>2) cd.cfg[0].channels=2;
+    if(cd.cfg[0].mode!=ENC_VBR){ cd.cfg[0].mode=ENC_VBR; } if(cd.cfg[0].quality<0.3f) cd.cfg[0].quality=0.5f;
+    encres_t er; if(enc_run(&cd.cfg[0],&er)){ encres_free(&er); res_sample("encoder setup refused"); res_end(); buf_free(&phys); return; }
+    s.linkoff[0]=0; mux_tailpages(&er.pk,cd.serial[0],cd.muxseed,&phys); s.linkoff[1]=phys.n; encres_free(&er);
+    snprintf(desc,sizeof desc,"hand-paged single link with tail-only pages: %dch %ldHz q%.2f N=%ld",cd.cfg[0].channels,cd.cfg[0].rate,cd.cfg[0].quality,cd.cfg[0].nsamples);
+    modelmask=0;
+  } else
   if(!modelmask){ if(build_chain(&cd,&phys,s.linkoff)){ res_sample("encoder setup refused: %s",desc); res_end(); buf_free(&phys); return; } }
   else if(build_chain_mixed(&r,&cd,modelmask,exhaustive?12:50,8,&phys,s.linkoff,desc,sizeof desc)){ res_sample("setup refused: %s",desc); res_end(); buf_free(&phys); return; }
   vh_dump("stream.ogg",phys.p,phys.n);
